@@ -298,6 +298,12 @@ struct SockCase {
     with_echo: bool,
     with_path: bool,
     buf: u16,
+    /// registered SCMP error receivers (1..=4) and how many of the first ones are dropped again
+    /// before anything is received
+    #[serde(default)]
+    receivers: u8,
+    #[serde(default)]
+    dropped: u8,
 }
 
 fn err_fields(e: &ScmpErrorMessage) -> (u8, u8, usize) {
@@ -323,7 +329,10 @@ fn check_sock(c: &SockCase, obs: &mut Obs) -> CheckResult {
         built.push((p.clone(), bytes, h, l4));
     }
     let local = ScionSocketIpAddr::new(IsdAsn(LOCAL_IA), IpAddr::from([10, 0, 0, 1]), 5001);
-    let (sock, mem, log) = hook::udp_socket_over(local, rx, c.with_echo);
+    let nrecv = (c.receivers as usize).clamp(1, 4);
+    let ndrop = (c.dropped as usize).min(nrecv - 1);
+    let (sock, mem, logs) = hook::udp_socket_with_receivers(local, rx, c.with_echo, nrecv, ndrop);
+    let log = logs[0].clone();
     let rt = tokio::runtime::Builder::new_current_thread().build().map_err(|e| Fail::new("harness:tokio", e.to_string()))?;
     let cap = (c.buf as usize).max(1);
     let got: Vec<(usize, Vec<u8>, String, Option<Vec<u8>>)> = vcore::no_panic("PathUnawareUdpScionSocket::recv_from", || {
@@ -383,6 +392,10 @@ fn check_sock(c: &SockCase, obs: &mut Obs) -> CheckResult {
     }
     // errors: every well-formed error of an assigned type reaches the receivers, in order
     let rep = log.reported();
+    for (i, other) in logs.iter().enumerate().skip(1) {
+        let o = other.reported();
+        ensure!(o.len() == rep.len() && o.iter().zip(rep.iter()).all(|(a, b)| err_fields(&a.0) == err_fields(&b.0) && a.1 == b.1), "socket:receivers-see-different-errors", "{nrecv} receivers registered, {ndrop} dropped: surviving receiver 0 got {} errors, receiver {i} got {}", rep.len(), o.len());
+    }
     let rep_f: Vec<(u8, usize)> = rep.iter().map(|(e, _)| { let f = err_fields(e); (f.0, f.2) }).collect();
     let want_f: Vec<(u8, usize)> = want_errors.iter().map(|(ty, l4, _)| (*ty, l4.len() - 4 - rw::RScmp::fixed_len(*ty).unwrap())).collect();
     // errors with a wrong checksum may or may not be reported: compare after removing them from
@@ -415,6 +428,9 @@ fn check_sock(c: &SockCase, obs: &mut Obs) -> CheckResult {
     obs.label(format!("dgrams-{}", want_dgrams.len().min(3)));
     if !want_errors.is_empty() {
         obs.label("errors-reported");
+        if ndrop > 0 {
+            obs.label("errors-reported-after-receiver-dropped");
+        }
     }
     if si > 0 {
         obs.label("echo-replied");
@@ -459,7 +475,7 @@ fn run(ctx: &Ctx) {
     let n = ctx.tier.pick(300_000, 6_000_000);
     ctx.run_prop("echo-handler", n, || pkt_strategy(1), check_echo);
     let n = ctx.tier.pick(100_000, 3_000_000);
-    ctx.run_prop("socket-receive-loop", n, || (proptest::collection::vec(pkt_strategy(6), 1..12), any::<bool>(), any::<bool>(), prop_oneof![Just(65535u16), Just(2048), 1u16..64]).prop_map(|(pkts, with_echo, with_path, buf)| SockCase { pkts, with_echo, with_path, buf }), check_sock);
+    ctx.run_prop("socket-receive-loop", n, || (proptest::collection::vec(pkt_strategy(6), 1..12), any::<bool>(), any::<bool>(), prop_oneof![Just(65535u16), Just(2048), 1u16..64], 1u8..=4, 0u8..4).prop_map(|(pkts, with_echo, with_path, buf, receivers, dropped)| SockCase { pkts, with_echo, with_path, buf, receivers, dropped }), check_sock);
 }
 
 fn post(ctx: &Ctx) {
@@ -467,6 +483,7 @@ fn post(ctx: &Ctx) {
     ctx.require_label("no-reply", 5000);
     ctx.require_label("errors-reported", 1000);
     ctx.require_label("echo-replied", 500);
+    ctx.require_label("errors-reported-after-receiver-dropped", 500);
 }
 
 fn main() {
